@@ -34,6 +34,9 @@ class World:
         self.delay_range = (0.05, 1.6)
         self.on_uplink = None      # optional observer(session, header, data)
         self.reject_connect = []   # per-session: exception text to raise in connect (consumed)
+        self.uri_alias = None           # optional: uri -> device name for URIs of other schemes
+        self.close_duration = 0.0       # virtual seconds SimLink.close() takes (0: instantaneous)
+        self.on_down_delivered = None   # observer: a downlink packet is handed to the driver's receive queue
         self.dupable = None        # optional fn(header, data) -> may this downlink packet be duplicated / delayed?
         self.lossy = None          # optional fn(direction, header, data) -> may this packet be lost?
         self.on_link_close = None  # optional observer(link), called at the start of close()
@@ -88,6 +91,7 @@ def make_simlink_class():
             self.fail = None
             self.failed = False
             self.sent_after_close = 0
+            self.closing = False
             self._last_up = 0.0
             self._last_down = 0.0
             self.device = None
@@ -96,10 +100,14 @@ def make_simlink_class():
 
         # ---------------------------------------------------------------- API
         def connect(self, uri, radio_link_statistics_callback, link_error_callback):
-            if not uri.startswith('sim://'):
-                raise WrongUriType('Not a sim URI')
             w = self.world
-            name = uri[len('sim://'):].split('?')[0]
+            if not uri.startswith('sim://'):
+                # a check may let the simulated link stand in for another scheme (e.g. the radio URI of a bootloader)
+                name = w.uri_alias(uri) if w.uri_alias is not None else None
+                if name is None:
+                    raise WrongUriType('Not a sim URI')
+            else:
+                name = uri[len('sim://'):].split('?')[0]
             if w.reject_connect:
                 msg = w.reject_connect.pop(0)
                 if msg:
@@ -123,6 +131,13 @@ def make_simlink_class():
                 t.start()
             if self.fail and self.fail.get('after') == 0:
                 self._trigger_failure()
+                if self.fail.get('in_connect') and self.fail.get('mode') == 'driver':
+                    # the driver's own thread notices the failure at once and reports it before connect() returns
+                    # (e.g. the very first USB transfer of the radio thread fails)
+                    for _ in range(2000):
+                        if self.fail.get('cb_done') or self.closed:
+                            break
+                        w.sim.sleep(0.0005)
 
         def _err_thread(self):
             msg = self.errbox.get(None)
@@ -132,7 +147,11 @@ def make_simlink_class():
             if cb is not None:
                 self.world.sim.log('link-error-driver-thread', self.session)
                 self.world.note('link_error_reported', self.session, 'driver')
-                cb(msg)
+                try:
+                    cb(msg)
+                finally:
+                    if self.fail is not None:
+                        self.fail['cb_done'] = True
                 self.world.note('link_error_returned', self.session, 'driver')
 
         def _trigger_failure(self):
@@ -177,6 +196,10 @@ def make_simlink_class():
                 return
             header = pk.header
             data = bytes(pk.data)
+            if self.closing:
+                w.wire.append((sim.now, self.session, 'up-closing', header, data, ''))
+                sim.log('send-while-closing', self.session, header, data)
+                return
             if self.failed:
                 if self.fail.get('mode') == 'sender' and not self.fail.get('reported'):
                     self.fail['reported'] = True
@@ -243,6 +266,8 @@ def make_simlink_class():
             if self.n_down == 1:
                 self.world.note('first_packet_delivered', self.session)
             self.world.sim.log('down', self.session, header, data)
+            if self.world.on_down_delivered is not None:
+                self.world.on_down_delivered(self, header, data)
             self.inbox.put((header, data))
             self._count()
 
@@ -262,6 +287,14 @@ def make_simlink_class():
             if not self.closed:
                 if self.world.on_link_close is not None:
                     self.world.on_link_close(self)
+                d = self.world.close_duration
+                if d and not self.closing and self.world.sim.cur() is not None:
+                    # a real driver takes a while to stop its thread and release the device; what is handed to it in the
+                    # meantime is accepted and discarded
+                    self.closing = True
+                    self.world.sim.sleep(d)
+                    if self.closed:
+                        return
                 self.closed = True
                 self.world.sim.log('link-close', self.session)
                 self.errbox.put(None)
